@@ -647,7 +647,11 @@ impl<R: data::RequestEncoder> OtlpTransport<R> {
 
 impl emit::Emitter for Otlp {
     fn emit<E: emit::event::ToEvent>(&self, evt: E) {
-        self.inner.emit(evt)
+        match self.inner {
+            Some(ref inner) => inner.emit(evt),
+            // Configuration failed, so no signal can take the event
+            None => self.metrics.event_discarded.increment(),
+        }
     }
 
     fn blocking_flush(&self, timeout: Duration) -> bool {
